@@ -5,7 +5,7 @@ import math
 ID = "C15"
 SCHEDULE_DEPENDENT = True     # a failure that does not recur when the case is re-run is still reported (engine: report())
 THEOREM_MODULE = "SimVerif.Props.C15"
-THEOREM_MODULES = ["SimVerif.Props.C15", "SimVerif.Tie.Own", "SimVerif.Tie.Inter", "SimVerif.Props.C15s"]
+THEOREM_MODULES = ["SimVerif.Props.C15", "SimVerif.Tie.Own", "SimVerif.Tie.Inter", "SimVerif.Props.C15s", "SimVerif.Tie.Cache"]
 NONTRIVIAL_FLAGS = {"partial-overlap", "covered-box", "multi-cover", "isolated-box", "identical-pair"}
 RULE = ("requests `own n (xc yc angle|- aspect height)*n`, sets of 1..8 boxes: integer-coordinate axis-aligned boxes on a small lattice (many shared edges, corners, nestings, duplicates), random axis-aligned, "
         "random rotated, and near-degenerate sets (identical boxes, boxes one ulp apart, boxes sharing an edge in a rotated frame, right-angle rotations, nested boxes), each set also in a shuffled order; "
